@@ -105,6 +105,13 @@ def mp4Op (a : Args) : String :=
         let head := match r.1 with | none => "ok" | some e => s!"err {e.name}"
         let cov := covered f atoms R.parents off old ((new.length : Int) - old) (a.nat "n" 16)
         s!"{head} off={off} old={old} newlen={new.length} covered={if cov then 1 else 0} data={hexField r.2}"
+  | "sortkeys" =>
+    -- `_item_sort_key` order: items=<keyhex>:<utf-8 of repr(value) as hex>,… -> ok order=<keyhex>,<keyhex>,…
+    let its : List Mp4R.SItem := ((a.str "items").splitOn ",").filterMap fun t =>
+      match t.splitOn ":" with
+      | [k, r] => some { key := parseHexField k, repr := (Utf8.decode (parseHexField r)).getD [], rendered := [] }
+      | _ => none
+    "ok order=" ++ ",".intercalate ((Mp4R.sortItems its).map fun i => hexField i.key)
   | "readtags" =>
     -- mutagen's own reader (Model/Container/Mp4Reader.lean) on the children of moov.udta.meta.ilst of `data`
     -- -> ok none | ok items=<keyhex=K:values;…> failed=<namehex=hex|hex;…> | err mutagen
@@ -132,6 +139,11 @@ def mp4Op (a : Args) : String :=
       match r.tags with
       | none => "tags=- items=-"
       | some cs => s!"tags={cs.length} items=" ++ (if cs.isEmpty then "-" else ",".intercalate (cs.map fun c => s!"{toHex c.1}:{c.2.length}")))
+  | "mf" =>
+    -- `saveFullEntryM` (Mp4LoadM.lean): MP4Tags.save WITH the reads of Atoms(fileobj); call indices count from the first call
+    -- behind loadfile's four probes
+    let s : FS := { data := a.bytes "data", pos := a.nat "pos" 0 }
+    showResult (saveFullEntryM (a.nat "B" 1048576) (a.bytes "ilst") (padOf a) (envOf a) s)
   | "m" =>
     let s : FS := { data := a.bytes "data", pos := a.nat "pos" 0 }
     showResult (saveEntryM (a.nat "B" 1048576) (a.bytes "ilst") (padOf a) (envOf a) s)
